@@ -2298,7 +2298,10 @@ class DiskObjectStore(PackBasedObjectStore):
             ):
                 pass
         except BaseException:
-            final_pack.close()
+            # The failed validation may still hold views into the mapped
+            # pack, in which case close() raises; the files must go anyway.
+            with suppress(BufferError, OSError):
+                final_pack.close()
             with suppress(FileNotFoundError):
                 os.remove(target_pack_path)
             with suppress(FileNotFoundError):
